@@ -5,12 +5,14 @@ import (
 	"encoding/json"
 	"fmt"
 	"os"
+	"runtime/debug"
 
 	"verif/mc"
 	"verif/props"
 )
 
 func main() {
+	debug.SetGCPercent(800)
 	if len(os.Args) < 3 {
 		fmt.Fprintln(os.Stderr, "usage: check <ID> quick|thorough|replay [file]")
 		os.Exit(2)
